@@ -1,161 +1,4 @@
-/-
-The translated kernels (`Qvnt.Generated.Kernels`, regenerated from /repo by `tools/rs2lean.py`
-on every run) are equal to the hand-written MODEL the property theorems are about.
-
-Equality is over an arbitrary commutative ring: a rewrite of a kernel that keeps its meaning
-over the reals (reordered operands, a different but equivalent bit test) still proves, a
-change of its arithmetic does not.
--/
-import Qvnt.Lemmas.GenCore
-import Mathlib.Tactic.Ring
-import Mathlib.Algebra.Ring.Basic
-
-namespace Qvnt.Gen
-open Qvnt
-
-variable {R : Type}
-
-/-- `rfl`, after a case split on Boolean flags where needed -/
-macro "cases_bool_rfl" : tactic =>
-  `(tactic| first | rfl | (simp [Atom.isValid, Atom.dgr, Cx.conj]; done) | (unfold Atom.dgr Atom.isValid; simp_all; done))
-
-section ops
-variable [CommRing R] [Consts R]
-
-/-- closes `generated kernel = model kernel` after unfolding: case split on every test, then
-componentwise ring normalisation -/
-macro "kernel_eq" : tactic =>
-  `(tactic| (
-    simp only [Atom.op, Atom.oddParity, rotate_eq, negWord_eq, Nat.and_one_is_mod, bne_iff_ne, beq_iff_eq,
-      ne_eq, Bool.not_eq_true, decide_eq_true_eq]
-    repeat' split
-    all_goals first
-      | rfl
-      | (ext <;> simp <;> ring)
-      | simp_all
-      | omega))
-
-theorem id_op_eq (ψ : State R) (idx : Nat) : Gen.id_op ψ idx = (Atom.id : Atom R).op ψ idx := by
-  unfold Gen.id_op; kernel_eq
-theorem x_op_eq (a : Nat) (ψ : State R) (idx : Nat) : Gen.x_op a ψ idx = (Atom.x a : Atom R).op ψ idx := by
-  unfold Gen.x_op; kernel_eq
-theorem y_op_eq (a p : Nat) (ψ : State R) (idx : Nat) : Gen.y_op a p ψ idx = (Atom.y a p : Atom R).op ψ idx := by
-  unfold Gen.y_op; kernel_eq
-theorem z_op_eq (a : Nat) (ψ : State R) (idx : Nat) : Gen.z_op a ψ idx = (Atom.z a : Atom R).op ψ idx := by
-  unfold Gen.z_op; kernel_eq
-theorem s_op_eq (a : Nat) (d : Bool) (ψ : State R) (idx : Nat) : Gen.s_op a d ψ idx = (Atom.s a d : Atom R).op ψ idx := by
-  unfold Gen.s_op; kernel_eq
-theorem t_op_eq (a : Nat) (d : Bool) (ψ : State R) (idx : Nat) : Gen.t_op a d ψ idx = (Atom.t a d : Atom R).op ψ idx := by
-  unfold Gen.t_op; kernel_eq
-theorem rx_op_eq (a : Nat) (ph : Cx R) (ψ : State R) (idx : Nat) : Gen.rx_op a ph ψ idx = (Atom.rx a ph).op ψ idx := by
-  unfold Gen.rx_op; kernel_eq
-theorem ry_op_eq (a : Nat) (ph : Cx R) (ψ : State R) (idx : Nat) : Gen.ry_op a ph ψ idx = (Atom.ry a ph).op ψ idx := by
-  unfold Gen.ry_op; kernel_eq
-theorem rz_op_eq (a : Nat) (ph : Cx R) (ψ : State R) (idx : Nat) : Gen.rz_op a ph ψ idx = (Atom.rz a ph).op ψ idx := by
-  unfold Gen.rz_op; kernel_eq
-theorem rxx_op_eq (a : Nat) (ph : Cx R) (ψ : State R) (idx : Nat) : Gen.rxx_op a ph ψ idx = (Atom.rxx a ph).op ψ idx := by
-  unfold Gen.rxx_op; kernel_eq
-theorem ryy_op_eq (a : Nat) (ph : Cx R) (ψ : State R) (idx : Nat) : Gen.ryy_op a ph ψ idx = (Atom.ryy a ph).op ψ idx := by
-  unfold Gen.ryy_op; kernel_eq
-theorem rzz_op_eq (a : Nat) (ph : Cx R) (ψ : State R) (idx : Nat) : Gen.rzz_op a ph ψ idx = (Atom.rzz a ph).op ψ idx := by
-  unfold Gen.rzz_op; kernel_eq
-theorem h1_op_eq (a : Nat) (ψ : State R) (idx : Nat) : Gen.h1_op a ψ idx = (Atom.h1 a : Atom R).op ψ idx := by
-  unfold Gen.h1_op; kernel_eq
-theorem h2_op_eq (a b ab : Nat) (ψ : State R) (idx : Nat) : Gen.h2_op a b ab ψ idx = (Atom.h2 a b ab : Atom R).op ψ idx := by
-  unfold Gen.h2_op; kernel_eq
-theorem swap_op_eq (ab : Nat) (ψ : State R) (idx : Nat) : Gen.swap_op ab ψ idx = (Atom.swap ab : Atom R).op ψ idx := by
-  unfold Gen.swap_op; kernel_eq
-theorem i_swap_op_eq (ab : Nat) (d : Bool) (ψ : State R) (idx : Nat) : Gen.i_swap_op ab d ψ idx = (Atom.iSwap ab d : Atom R).op ψ idx := by
-  unfold Gen.i_swap_op; kernel_eq
-theorem sqrt_swap_op_eq (ab : Nat) (d : Bool) (ψ : State R) (idx : Nat) : Gen.sqrt_swap_op ab d ψ idx = (Atom.sqrtSwap ab d : Atom R).op ψ idx := by
-  unfold Gen.sqrt_swap_op; kernel_eq
-theorem sqrt_i_swap_op_eq (ab : Nat) (d : Bool) (ψ : State R) (idx : Nat) : Gen.sqrt_i_swap_op ab d ψ idx = (Atom.sqrtISwap ab d : Atom R).op ψ idx := by
-  unfold Gen.sqrt_i_swap_op; kernel_eq
-
-end ops
-
-/-! ### `is_valid`, `acts_on`, `dgr`: equal to the model's by unfolding -/
-section fns
-
-theorem id_isValid_eq : Gen.id_isValid  = (Atom.id : Atom R).isValid := by cases_bool_rfl
-theorem id_actsOn_eq : Gen.id_actsOn  = (Atom.id : Atom R).actsOn := rfl
-theorem id_dgr_eq [Neg R] : (Gen.id_dgr  : Atom R) = (Atom.id : Atom R).dgr := by cases_bool_rfl
-theorem x_isValid_eq (a : Nat) : Gen.x_isValid a = (Atom.x a : Atom R).isValid := by cases_bool_rfl
-theorem x_actsOn_eq (a : Nat) : Gen.x_actsOn a = (Atom.x a : Atom R).actsOn := rfl
-theorem x_dgr_eq [Neg R] (a : Nat) : (Gen.x_dgr a : Atom R) = (Atom.x a : Atom R).dgr := by cases_bool_rfl
-theorem y_isValid_eq (a : Nat) (p : Nat) : Gen.y_isValid a p = (Atom.y a p : Atom R).isValid := by cases_bool_rfl
-theorem y_actsOn_eq (a : Nat) (p : Nat) : Gen.y_actsOn a p = (Atom.y a p : Atom R).actsOn := rfl
-theorem y_dgr_eq [Neg R] (a : Nat) (p : Nat) : (Gen.y_dgr a p : Atom R) = (Atom.y a p : Atom R).dgr := by cases_bool_rfl
-theorem z_isValid_eq (a : Nat) : Gen.z_isValid a = (Atom.z a : Atom R).isValid := by cases_bool_rfl
-theorem z_actsOn_eq (a : Nat) : Gen.z_actsOn a = (Atom.z a : Atom R).actsOn := rfl
-theorem z_dgr_eq [Neg R] (a : Nat) : (Gen.z_dgr a : Atom R) = (Atom.z a : Atom R).dgr := by cases_bool_rfl
-theorem s_isValid_eq (a : Nat) (d : Bool) : Gen.s_isValid a d = (Atom.s a d : Atom R).isValid := by cases_bool_rfl
-theorem s_actsOn_eq (a : Nat) (d : Bool) : Gen.s_actsOn a d = (Atom.s a d : Atom R).actsOn := rfl
-theorem s_dgr_eq [Neg R] (a : Nat) (d : Bool) : (Gen.s_dgr a d : Atom R) = (Atom.s a d : Atom R).dgr := by cases_bool_rfl
-theorem t_isValid_eq (a : Nat) (d : Bool) : Gen.t_isValid a d = (Atom.t a d : Atom R).isValid := by cases_bool_rfl
-theorem t_actsOn_eq (a : Nat) (d : Bool) : Gen.t_actsOn a d = (Atom.t a d : Atom R).actsOn := rfl
-theorem t_dgr_eq [Neg R] (a : Nat) (d : Bool) : (Gen.t_dgr a d : Atom R) = (Atom.t a d : Atom R).dgr := by cases_bool_rfl
-theorem rx_isValid_eq (a : Nat) (ph : Cx R) : Gen.rx_isValid a ph = (Atom.rx a ph : Atom R).isValid := by cases_bool_rfl
-theorem rx_actsOn_eq (a : Nat) (ph : Cx R) : Gen.rx_actsOn a ph = (Atom.rx a ph : Atom R).actsOn := rfl
-theorem rx_dgr_eq [Neg R] (a : Nat) (ph : Cx R) : (Gen.rx_dgr a ph : Atom R) = (Atom.rx a ph : Atom R).dgr := by cases_bool_rfl
-theorem ry_isValid_eq (a : Nat) (ph : Cx R) : Gen.ry_isValid a ph = (Atom.ry a ph : Atom R).isValid := by cases_bool_rfl
-theorem ry_actsOn_eq (a : Nat) (ph : Cx R) : Gen.ry_actsOn a ph = (Atom.ry a ph : Atom R).actsOn := rfl
-theorem ry_dgr_eq [Neg R] (a : Nat) (ph : Cx R) : (Gen.ry_dgr a ph : Atom R) = (Atom.ry a ph : Atom R).dgr := by cases_bool_rfl
-theorem rz_isValid_eq (a : Nat) (ph : Cx R) : Gen.rz_isValid a ph = (Atom.rz a ph : Atom R).isValid := by cases_bool_rfl
-theorem rz_actsOn_eq (a : Nat) (ph : Cx R) : Gen.rz_actsOn a ph = (Atom.rz a ph : Atom R).actsOn := rfl
-theorem rz_dgr_eq [Neg R] (a : Nat) (ph : Cx R) : (Gen.rz_dgr a ph : Atom R) = (Atom.rz a ph : Atom R).dgr := by cases_bool_rfl
-theorem rxx_isValid_eq (a : Nat) (ph : Cx R) : Gen.rxx_isValid a ph = (Atom.rxx a ph : Atom R).isValid := by cases_bool_rfl
-theorem rxx_actsOn_eq (a : Nat) (ph : Cx R) : Gen.rxx_actsOn a ph = (Atom.rxx a ph : Atom R).actsOn := rfl
-theorem rxx_dgr_eq [Neg R] (a : Nat) (ph : Cx R) : (Gen.rxx_dgr a ph : Atom R) = (Atom.rxx a ph : Atom R).dgr := by cases_bool_rfl
-theorem ryy_isValid_eq (a : Nat) (ph : Cx R) : Gen.ryy_isValid a ph = (Atom.ryy a ph : Atom R).isValid := by cases_bool_rfl
-theorem ryy_actsOn_eq (a : Nat) (ph : Cx R) : Gen.ryy_actsOn a ph = (Atom.ryy a ph : Atom R).actsOn := rfl
-theorem ryy_dgr_eq [Neg R] (a : Nat) (ph : Cx R) : (Gen.ryy_dgr a ph : Atom R) = (Atom.ryy a ph : Atom R).dgr := by cases_bool_rfl
-theorem rzz_isValid_eq (a : Nat) (ph : Cx R) : Gen.rzz_isValid a ph = (Atom.rzz a ph : Atom R).isValid := by cases_bool_rfl
-theorem rzz_actsOn_eq (a : Nat) (ph : Cx R) : Gen.rzz_actsOn a ph = (Atom.rzz a ph : Atom R).actsOn := rfl
-theorem rzz_dgr_eq [Neg R] (a : Nat) (ph : Cx R) : (Gen.rzz_dgr a ph : Atom R) = (Atom.rzz a ph : Atom R).dgr := by cases_bool_rfl
-theorem h1_isValid_eq (a : Nat) : Gen.h1_isValid a = (Atom.h1 a : Atom R).isValid := by cases_bool_rfl
-theorem h1_actsOn_eq (a : Nat) : Gen.h1_actsOn a = (Atom.h1 a : Atom R).actsOn := rfl
-theorem h1_dgr_eq [Neg R] (a : Nat) : (Gen.h1_dgr a : Atom R) = (Atom.h1 a : Atom R).dgr := by cases_bool_rfl
-theorem h2_isValid_eq (a : Nat) (b : Nat) (ab : Nat) : Gen.h2_isValid a b ab = (Atom.h2 a b ab : Atom R).isValid := by cases_bool_rfl
-theorem h2_actsOn_eq (a : Nat) (b : Nat) (ab : Nat) : Gen.h2_actsOn a b ab = (Atom.h2 a b ab : Atom R).actsOn := rfl
-theorem h2_dgr_eq [Neg R] (a : Nat) (b : Nat) (ab : Nat) : (Gen.h2_dgr a b ab : Atom R) = (Atom.h2 a b ab : Atom R).dgr := by cases_bool_rfl
-theorem swap_isValid_eq (a : Nat) : Gen.swap_isValid a = (Atom.swap a : Atom R).isValid := by cases_bool_rfl
-theorem swap_actsOn_eq (a : Nat) : Gen.swap_actsOn a = (Atom.swap a : Atom R).actsOn := rfl
-theorem swap_dgr_eq [Neg R] (a : Nat) : (Gen.swap_dgr a : Atom R) = (Atom.swap a : Atom R).dgr := by cases_bool_rfl
-theorem i_swap_isValid_eq (a : Nat) (d : Bool) : Gen.i_swap_isValid a d = (Atom.iSwap a d : Atom R).isValid := by cases_bool_rfl
-theorem i_swap_actsOn_eq (a : Nat) (d : Bool) : Gen.i_swap_actsOn a d = (Atom.iSwap a d : Atom R).actsOn := rfl
-theorem i_swap_dgr_eq [Neg R] (a : Nat) (d : Bool) : (Gen.i_swap_dgr a d : Atom R) = (Atom.iSwap a d : Atom R).dgr := by cases_bool_rfl
-theorem sqrt_swap_isValid_eq (a : Nat) (d : Bool) : Gen.sqrt_swap_isValid a d = (Atom.sqrtSwap a d : Atom R).isValid := by cases_bool_rfl
-theorem sqrt_swap_actsOn_eq (a : Nat) (d : Bool) : Gen.sqrt_swap_actsOn a d = (Atom.sqrtSwap a d : Atom R).actsOn := rfl
-theorem sqrt_swap_dgr_eq [Neg R] (a : Nat) (d : Bool) : (Gen.sqrt_swap_dgr a d : Atom R) = (Atom.sqrtSwap a d : Atom R).dgr := by cases_bool_rfl
-theorem sqrt_i_swap_isValid_eq (a : Nat) (d : Bool) : Gen.sqrt_i_swap_isValid a d = (Atom.sqrtISwap a d : Atom R).isValid := by cases_bool_rfl
-theorem sqrt_i_swap_actsOn_eq (a : Nat) (d : Bool) : Gen.sqrt_i_swap_actsOn a d = (Atom.sqrtISwap a d : Atom R).actsOn := rfl
-theorem sqrt_i_swap_dgr_eq [Neg R] (a : Nat) (d : Bool) : (Gen.sqrt_i_swap_dgr a d : Atom R) = (Atom.sqrtISwap a d : Atom R).dgr := by cases_bool_rfl
-end fns
-
-
-/-! ### constructors `Op::new` -/
-section ctor
-theorem x_new_eq (a : Nat) : (Gen.x_new a : Atom R) = .x a := rfl
-theorem y_new_eq (a : Nat) : (Gen.y_new a : Atom R) = .y a (yIPow a) := by
-  unfold Gen.y_new; simp only [yIPow_eq]
-theorem z_new_eq (a : Nat) : (Gen.z_new a : Atom R) = .z a := rfl
-theorem s_new_eq (a : Nat) : (Gen.s_new a : Atom R) = .s a false := rfl
-theorem t_new_eq (a : Nat) : (Gen.t_new a : Atom R) = .t a false := rfl
-theorem h1_new_eq (a : Nat) : (Gen.h1_new a : Atom R) = .h1 a := rfl
-theorem h2_new_eq (a b : Nat) : (Gen.h2_new a b : Atom R) = .h2 a b (a ||| b) := rfl
-theorem swap_new_eq (a : Nat) : (Gen.swap_new a : Atom R) = .swap a := rfl
-theorem i_swap_new_eq (a : Nat) : (Gen.i_swap_new a : Atom R) = .iSwap a false := rfl
-theorem sqrt_swap_new_eq (a : Nat) : (Gen.sqrt_swap_new a : Atom R) = .sqrtSwap a false := rfl
-theorem sqrt_i_swap_new_eq (a : Nat) : (Gen.sqrt_i_swap_new a : Atom R) = .sqrtISwap a false := rfl
-variable [Div R] [Mul R] [Consts R] [Trig R]
-theorem rx_new_eq (a : Nat) (θ : R) : Gen.rx_new a θ = .rx a (halfPhaseDiv θ) := rfl
-theorem ry_new_eq (a : Nat) (θ : R) : Gen.ry_new a θ = .ry a (halfPhaseDiv θ) := rfl
-theorem rz_new_eq (a : Nat) (θ : R) : Gen.rz_new a θ = .rz a (halfPhaseDiv θ) := rfl
-theorem rxx_new_eq (a : Nat) (θ : R) : Gen.rxx_new a θ = .rxx a (halfPhaseMul θ) := rfl
-theorem ryy_new_eq (a : Nat) (θ : R) : Gen.ryy_new a θ = .ryy a (halfPhaseDiv θ) := rfl
-theorem rzz_new_eq (a : Nat) (θ : R) : Gen.rzz_new a θ = .rzz a (halfPhaseDiv θ) := rfl
-end ctor
-
-/-! ### the sweep of `dispatch.rs` -/
-end Qvnt.Gen
+/- Umbrella: kernel equalities by kind (GenKOps: the arithmetic of every kernel; GenKFns: is_valid / acts_on / dgr; GenKCtor: Op::new) -/
+import Qvnt.Lemmas.GenKOps
+import Qvnt.Lemmas.GenKFns
+import Qvnt.Lemmas.GenKCtor
